@@ -91,8 +91,12 @@ def jHp (j : Json) : Except String Hp := do
     | .ok (.null) => pure none
     | .ok c => pure (some (← jCond c))
     | .error _ => pure none
-  return { name := ← (← field j "name").getStr?, dim := ← jDim (← field j "dim"),
-           tr := ← jTr (← (← field j "tr").getStr?), cond }
+  let dim ← jDim (← field j "dim")
+  let enc ← match j.getObjVal? "enc" with
+    | .ok (.null) => pure (match dim with | .cat cs => cs | _ => [])
+    | .ok e => jList jVal e
+    | .error _ => pure (match dim with | .cat cs => cs | _ => [])
+  return { name := ← (← field j "name").getStr?, dim, tr := ← jTr (← (← field j "tr").getStr?), cond, enc }
 
 def jDecl (j : Json) : Except String Decl := do
   return { hps := ← jList jHp (← field j "hps"), forbs := ← jList jForb (← field j "forbs") }
